@@ -60,6 +60,31 @@ func schemaJ(g *DocGen) J {
 	return J{"top": 0, "ctxs": all}
 }
 
+// nodeModelJU: the abstract node together with the properties no context defines (as leaves): what the document looks like
+// when it is rendered with them
+func nodeModelJU(n *ANode) J {
+	j := nodeModelJ(n)
+	props := []any{}
+	for i, f := range n.Fields {
+		pj := j["props"].([]any)[i].(J)
+		var members []any
+		for _, v := range f.Vals {
+			if v.Node != nil {
+				members = append(members, nodeModelJU(v.Node))
+			} else {
+				members = append(members, nil)
+			}
+		}
+		pj["members"] = members
+		props = append(props, pj)
+	}
+	for _, u := range n.Undef {
+		props = append(props, J{"name": u.K, "members": []any{nil}})
+	}
+	j["props"] = props
+	return j
+}
+
 func nodeModelJ(n *ANode) J {
 	var types []any
 	if n.Type != nil {
